@@ -1087,3 +1087,155 @@ def piecewise_eval(r: R, chk, quals: List[str], rule="PIECEWISE-EVAL"):
                        detail="" if ok else f"{q}: `{seg(node, 40)}` evaluates the whole curve inside the span loop although the method registry offers closed Newton-Cotes nodes: the node at the right end of a span reads the next span, so with method='closed-newton-cotes' the integral of a degree-0 curve / of a curve with an interior knot of multiplicity p+1 / the length of a polyline is wrong (step [0,1] on [0,1,2]: 3/2 instead of 1)",
                        func=q, construct="whole curve evaluated at span ends")
     chk.floor(rule, "curve evaluations inside span loops", n, len(quals))
+
+
+# ------------------------------------------------------------------------------------------------
+# PRECOND-LB: a count the library itself chooses satisfies the lower bound the callee asserts
+def _assert_lower_bounds(fi):
+    """{param: smallest admissible int} from top-level `assert param > c` / `>= c` / `c < param` / `c <= param`"""
+    out = {}
+    for st in fi.node.body:
+        if isinstance(st, ast.Assert) and isinstance(st.test, ast.Compare) and len(st.test.ops) == 1:
+            l, op, rr = st.test.left, st.test.ops[0], st.test.comparators[0]
+            if isinstance(l, ast.Name) and isinstance(rr, ast.Constant) and isinstance(rr.value, int) and l.id in fi.params:
+                if isinstance(op, ast.Gt):
+                    out[l.id] = max(out.get(l.id, -10**9), rr.value + 1)
+                elif isinstance(op, ast.GtE):
+                    out[l.id] = max(out.get(l.id, -10**9), rr.value)
+            if isinstance(rr, ast.Name) and isinstance(l, ast.Constant) and isinstance(l.value, int) and rr.id in fi.params:
+                if isinstance(op, ast.Lt):
+                    out[rr.id] = max(out.get(rr.id, -10**9), l.value + 1)
+                elif isinstance(op, ast.LtE):
+                    out[rr.id] = max(out.get(rr.id, -10**9), l.value)
+    return out
+
+
+def precond_lb(r: R, chk, quals: List[str], rule="PRECOND-LB"):
+    """callees: functions of heavy.NodeSample / heavy.IntegratorArray with an asserted lower bound on their size parameter.
+    For every call in `quals` that can reach one of them (directly or through a registry of function references) the argument's
+    lower bound is computed by a small interval evaluation (constants, len() >= 0 or what a dominating assert / test says,
+    .degree >= 0, .npts >= 1, +, max); a value handed in by the caller is the caller's responsibility, a value the function
+    chooses itself (a default under `if x is None`) has to satisfy the strongest bound among the possible callees."""
+    from .c10 import IA, NS, funcrefs
+
+    n = 0
+    for q in quals:
+        ctx = r.root(q)
+        fi = ctx.fi
+        defs = {}
+        for a in ast.walk(fi.node):
+            if isinstance(a, ast.Assign) and len(a.targets) == 1 and isinstance(a.targets[0], ast.Name):
+                defs.setdefault(a.targets[0].id, []).append(a.value)
+        facts = []  # (expr text, lower bound expr) from asserts `len(x) >= e`
+        for a in ast.walk(fi.node):
+            t = a.test if isinstance(a, ast.Assert) else None
+            if isinstance(t, ast.Compare) and len(t.ops) == 1 and isinstance(t.ops[0], (ast.GtE, ast.Gt)):
+                facts.append((seg(t.left), t.comparators[0], isinstance(t.ops[0], ast.Gt)))
+
+        def lb(e, depth=0):
+            if depth > 6:
+                return None
+            if isinstance(e, ast.Constant) and isinstance(e.value, int) and not isinstance(e.value, bool):
+                return e.value
+            for txt, low, strict in facts:
+                if seg(e) == txt:
+                    b = lb(low, depth + 1)
+                    if b is not None:
+                        return b + (1 if strict else 0)
+            if isinstance(e, ast.Call) and seg(e.func) == "len":
+                return 0
+            if isinstance(e, ast.Call) and seg(e.func) == "max" and e.args:
+                bs = [lb(a, depth + 1) for a in e.args]
+                bs = [b for b in bs if b is not None]
+                return max(bs) if bs else None
+            if isinstance(e, ast.Call) and seg(e.func) == "min" and e.args:
+                bs = [lb(a, depth + 1) for a in e.args]
+                return None if any(b is None for b in bs) else min(bs)
+            if isinstance(e, ast.Attribute) and e.attr == "degree":
+                return 0
+            if isinstance(e, ast.Attribute) and e.attr == "npts":
+                return 1
+            if isinstance(e, ast.BinOp) and isinstance(e.op, ast.Add):
+                a, b = lb(e.left, depth + 1), lb(e.right, depth + 1)
+                return None if a is None or b is None else a + b
+            if isinstance(e, ast.BinOp) and isinstance(e.op, ast.Mult):
+                a, b = lb(e.left, depth + 1), lb(e.right, depth + 1)
+                return None if a is None or b is None or a < 0 or b < 0 else a * b
+            if isinstance(e, ast.Name):
+                ds = defs.get(e.id, [])
+                if e.id in ("olddegree", "newdegree", "degree"):
+                    return 0
+                if not ds:
+                    return None  # handed in by the caller
+                bs = [lb(d, depth + 1) for d in ds]
+                bs = [b for b in bs if b is not None]
+                return min(bs) if bs else None
+            return None
+
+        for c in ast.walk(fi.node):
+            if not (isinstance(c, ast.Call) and c.args):
+                continue
+            cands = [f for f in funcrefs(ctx, c.func) if f.startswith(NS) or f.startswith(IA)]
+            if not cands:
+                continue
+            need = None
+            worst = None
+            for f in cands:
+                cf = r.prog.funcs.get(f)
+                if cf is None:
+                    continue
+                lbs = _assert_lower_bounds(cf)
+                pname = next((p for p in cf.params if p not in ("self", "cls")), None)
+                if pname in lbs and (need is None or lbs[pname] > need):
+                    need, worst = lbs[pname], f
+            if need is None:
+                continue
+            have = lb(c.args[0])
+            if have is None:
+                continue
+            n += 1
+            ok = have >= need
+            chk.ob(rule, f"{q}: `{seg(c, 40)}` is called with at least {need}", ok, loc=r.loc(ctx, c),
+                   detail="" if ok else f"{q}: `{seg(c, 50)}` can reach {worst}, which asserts a size >= {need}, with `{seg(c.args[0], 30)}` that the function chooses itself and that can be as small as {have}: an AssertionError instead of a result (one point / a degree-0 curve with the closed rule)",
+                   func=q, construct=f"size {seg(c.args[0], 30)} may be below {need}")
+    chk.note(f"{rule}: {n} call(s) with a library-chosen size examined in {', '.join(quals)}")
+    return n
+
+
+# ------------------------------------------------------------------------------------------------
+# KV-CONSISTENT: a direct rebinding of a curve's knot vector leaves no stale control points / weights behind
+def kv_consistent(r: R, chk, quals: List[str], rule="KV-CONSISTENT"):
+    """a store to the private knot-vector field changes npts.  For each of ctrlpoints / weights, at that store either the path
+    established `self.<field> is None`, or the same function stores the field afterwards (same commit), or the store is the
+    constructor's.  Otherwise len(<field>) != npts afterwards."""
+    from .c08 import path_facts
+
+    n = 0
+    for q in quals:
+        ctx = r.root(q)
+        fi = ctx.fi
+        if fi.name == "__init__":
+            continue
+        stores = [x for x in r.stmt_nodes(ctx) if isinstance(x.ast, ast.Assign) and any(isinstance(t, ast.Attribute) and mangle_like(fi, t.attr) == CURVE_FIELDS[0] and isinstance(t.value, ast.Name) and t.value.id == "self" for t in x.ast.targets)]
+        for st in stores:
+            facts = path_facts(ctx, st.id)
+            after = ctx.cfg.reachable_from_succ(st.id, exc=False)
+            for fld, nice in ((CURVE_FIELDS[1], "ctrlpoints"), (CURVE_FIELDS[2], "weights")):
+                n += 1
+                is_none = (f"self.{nice} is None", True) in facts
+                later = False
+                for x in after:
+                    a = ctx.cfg.nodes[x].ast
+                    if isinstance(a, ast.Assign) and any(isinstance(t, ast.Attribute) and t.attr in (nice, "_BaseCurve__" + nice, "__" + nice) and isinstance(t.value, ast.Name) and t.value.id == "self" for t in a.targets):
+                        later = True
+                ok = is_none or later
+                chk.ob(rule, f"{q}: `{seg(st.ast, 40)}` leaves {nice} consistent (None on this path, or stored afterwards)", ok, loc=r.loc(ctx, st.ast),
+                       detail="" if ok else f"{q}: the knot vector is rebound at {r.loc(ctx, st.ast)} on a path that neither established `self.{nice} is None` nor stores new {nice} afterwards: a curve that has {nice} keeps the old list, so len({nice}) != npts (Curve([0,0,1,1], weights=[1,2]).knotvector = [0,0,1/2,1,1] leaves 2 weights for npts 3)",
+                       func=q, construct=f"knot vector rebound with stale {nice}")
+    chk.floor(rule, "direct stores of the knot vector", n, 2)
+
+
+def mangle_like(fi, attr: str) -> str:
+    from ..index import mangle
+
+    return mangle(fi.clsname, attr)
